@@ -16,8 +16,11 @@ class InvertedBooleanCheckTransformer(LibcstResultTransformer):
         if not self.node_is_selected(original_node):
             return updated_node
 
-        if isinstance(updated_node.operator, cst.Not) and isinstance(
-            (comparison := updated_node.expression), cst.Comparison
+        if (
+            isinstance(updated_node.operator, cst.Not)
+            and isinstance((comparison := updated_node.expression), cst.Comparison)
+            # The negation of a chained comparison (`not a < b < c`) is not the chain of the negated links
+            and len(comparison.comparisons) == 1
         ):
             return self.report_new_comparison(original_node, comparison)
         return updated_node
@@ -63,8 +66,16 @@ class InvertedBooleanCheckTransformer(LibcstResultTransformer):
                     new_operator = cst.GreaterThan()
                 case cst.GreaterThanEqual():
                     new_operator = cst.LessThan()
+                case cst.In():
+                    new_operator = cst.NotIn()
+                case cst.NotIn():
+                    new_operator = cst.In()
+                case cst.Is():
+                    new_operator = cst.IsNot()
+                case cst.IsNot():
+                    new_operator = cst.Is()
                 case _:
-                    new_operator = comparison_op
+                    new_operator = comparison_op.operator
 
             inverted_comparisons.append(
                 comparison_op.with_changes(operator=new_operator)
